@@ -20,8 +20,8 @@ CLAIMS = {
          "Decides: index reservation is a single RMW and the only writer of the counter; slot initialisation dominates publication and nothing touches the slot afterwards; lookups read a slot only under active==true and answer None only for an unallocated bucket or a clear flag; lying-iterator guard; the bucket installed by the CAS has its flags initialised before publication and is not written through afterwards; Location::of is a bijection onto the slots; the entry stride is a pure function of (T, cols). Not linearizability.", "§3 C08"),
  "C09": ("other", "ordering table over every atomic operation (resolved constants), confinement of UnsafeCell matchers, Send/Sync bounds",
          "Decides that every happens-before edge the design relies on is declared with a sufficient ordering, that the per-thread matcher scratch is confined to the pool, and that flag-skipping readers are fed only by indices that passed a flag-acquiring read. Not race freedom over all executions.", "§3 C09"),
- "C10": ("other", "sibling affine extents of layout vs raw views, guard dominance, overflow obligations, truncating-cast inventory, reaching-definition rule on the start of the final last-row scan (not a constant), extents matched by element type when the carve-up is restructured",
-         "Decides: slab view extents equal layout extents; the four slab guards dominate the unsafe carve-up; u16 score arithmetic obligations; truncating casts behind their guards; MatrixLayout values only from MatrixLayout::new; no matcher state besides config and slab (a configuration-derived cache is a violation). Not totality/history independence in general.", "§3 C10 Also: the final scan over current_row does not start at a constant column (cells below the last row's first written column are leftovers of earlier calls)."),
+ "C10": ("other", "sibling affine extents of layout vs raw views, guard dominance, overflow obligations, truncating-cast inventory, reaching-definition rule on the start of the final last-row scan (not a constant), extents matched by element type when the carve-up is restructured, no panic call reachable from the reject edge of setup",
+         "Decides: slab view extents equal layout extents; the four slab guards dominate the unsafe carve-up; u16 score arithmetic obligations; truncating casts behind their guards; MatrixLayout values only from MatrixLayout::new; no matcher state besides config and slab (a configuration-derived cache is a violation). The reject edge of the matrix set-up in fuzzy_match_optimal reaches `return None` without an explicit panic (only that edge; other assert/unwrap sites are not enumerated). Not totality/history independence in general.", "§3 C10 Also: the final scan over current_row does not start at a constant column (cells below the last row's first written column are leftovers of earlier calls)."),
  "C11": ("other", "loop-exit / iterator-pipeline rule on Drop and Bucket::dealloc, who-may-call dealloc, control dependence of drops on active, unwind-graph order of callback vs move",
          "Decides: Drop visits every bucket and dealloc every entry (for-loop or adaptor-chain form); who may free; drops gated on the active flag; value moved into the slot only after the fallible callback; no leak primitives. Not exactly-once over all histories.", "§3 C11"),
  "C12": ("other", "post-dominance in restart, guard set of Snapshot::update, derived per-stream field reset completeness; when tick is re-architected: path traces of the flattened tick (protocol rules per path + equality with the reference tree's traces)",
